@@ -88,11 +88,24 @@ def record_macros(ctx):
     delete = rec.events[n1:]
     rec.close()
     strip = lambda evs: [{"op": e["op"], "a": e["a"], "b": e["b"], "c": e["c"]} for e in evs if e["o"] == bid]
+    creates, avail = {"harmonic": strip(create)}, {"harmonic": [s[0] for s in bpost["fs"]]}
+    for kind in ("linear", "histogram"):
+        rk = Rec()
+        rk.do(op="new", natoms=8)
+        rk.do(op="config", text=cv_text("z", 1, "  lowerBoundary 0.0\n  upperBoundary 4.0\n"))
+        rk.do(op="step", pos=[[0, 0, 1.5]] * 8)
+        nk = len(rk.events)
+        rk.do(op="config", text=bias_text(kind, "k1", ["z"]))
+        evk = rk.events[nk:]
+        bk = (set(e["o"] for e in evk) - set(q["id"] for q in base)).pop()
+        creates[kind] = [{"op": e["op"], "a": e["a"], "b": e["b"], "c": e["c"]} for e in evk if e["o"] == bk]
+        avail[kind] = [s[0] for s in [q for q in evk[-1]["post"] if q["id"] == bk][0]["fs"]]
+        rk.close()
     foreign = [e for e in create + delete if e["o"] != bid]
     if foreign:
         raise vlib.MachineryError("bias creation/deletion performs outermost dependency operations on other objects: %s" % foreign[:2])
     return {"base": base, "var": vid, "biaskind": bpost["kind"], "biasavail": [s[0] for s in bpost["fs"]],
-            "create": strip(create), "delete": strip(delete), "tsfs": [1, 2, 3]}, rec.tables
+            "create": strip(create), "delete": strip(delete), "tsfs": [1, 2, 3], "creates": creates, "avail": avail}, rec.tables
 
 
 KNOWN = {
